@@ -291,6 +291,48 @@ def struct_cache(ctx):
     ctx.cell("two-cstructs-same-names")
 
 
+def same_text_other_constants(ctx):
+    """Several cstruct objects load the very same structure text after different constants and types of the same names:
+    every object binds the names it knows (array counts folded at load time, counts evaluated while reading, sizeof)."""
+    body = ("struct T { uint8 head; char name[NAME_LEN]; uint8 count; uint16 samples[count * CHANNELS]; "
+            "uint8 rest[sizeof(header) - 2]; uint8 tail; };")
+    worlds = [("#define NAME_LEN 3\n#define CHANNELS 2\nstruct header { uint32 a; };", 3, 2, 4),
+              ("#define NAME_LEN 5\n#define CHANNELS 1\nstruct header { uint8 a; uint16 b; };", 5, 1, 3),
+              ("#define NAME_LEN 1\n#define CHANNELS 3\nstruct header { uint64 a; uint8 b; };", 1, 3, 9)]
+    for compiled in (True, False):
+        for order in ([0, 1, 2], [2, 0, 1], [1, 2, 0]):
+            objs = []
+            for w in order:
+                pre, name_len, channels, hsize = worlds[w]
+                cs = lib.cstruct()
+                cs.load(pre, compiled=compiled)
+                cs.load(body, compiled=compiled)
+                objs.append((cs, name_len, channels, hsize))
+            for cs, name_len, channels, hsize in objs:
+                ctx.evaluation(("same-text", compiled, tuple(order), name_len))
+                ctx.cell("same-text-other-constants")
+                count = 2
+                data = bytes([7]) + bytes(range(0x41, 0x41 + name_len)) + bytes([count]) + bytes(range(1, 1 + 2 * count * channels)) + \
+                    bytes(range(0x80, 0x80 + hsize - 2)) + bytes([0xEE]) + b"junk"
+                want = (name_len, hsize - 2, bytes(range(0x41, 0x41 + name_len)), count * channels, 0xEE,
+                        1 + name_len + 1 + 2 * count * channels + hsize - 2 + 1)
+                try:
+                    T = cs.T
+                    import io
+
+                    st = io.BytesIO(data)
+                    o = T(st)
+                    got = (T.fields["name"].type.num_entries, T.fields["rest"].type.num_entries, bytes(o.name), len(o.samples),
+                           int(o.tail), st.tell())
+                except Exception as e:  # noqa: BLE001
+                    got = lib.exc_sig(e)
+                if got != want:
+                    ctx.violation("history", "constants-or-types-of-another-cstruct-object-used",
+                                  {"workload": "same-text", "order": order, "compiled": compiled, "got": repr(got), "want": repr(want)})
+                else:
+                    ctx.event("same_text_objects_checked")
+
+
 def custom_types(ctx):
     """One user-defined type class registered on several cstruct objects (different byte order and size): every
     object keeps its own binding, whatever is registered elsewhere afterwards."""
@@ -545,6 +587,7 @@ def run(ctx):
     if ctx.shard == 0:
         struct_cache(ctx)
         custom_types(ctx)
+        same_text_other_constants(ctx)
     load_histories(ctx, 6 if not ctx.thorough else 120)
     copies(ctx, 10 if not ctx.thorough else 250)
     failed_loads(ctx, 8 if not ctx.thorough else 150)
@@ -569,6 +612,9 @@ def replay(ctx, detail):
     print("definition:\n" + detail.get("text", ""))
     print({k: v for k, v in detail.items() if k not in ("ast", "text")})
     struct_cache(ctx)
+    if detail.get("workload") == "same-text":
+        same_text_other_constants(ctx)
+        return
     if detail.get("workload") == "custom-types":
         custom_types(ctx)
         return
